@@ -99,8 +99,8 @@ var outlines = []outline{
 	{"first-point-not-extreme", []geomref.Cmd{mv(300, 300), ln(100, 400), ln(200, 50)}},
 	{"point-cancelled-by-translation", []geomref.Cmd{mv(-100, 50)}},
 	{"closepath-first", []geomref.Cmd{cl(), mv(5, 5), ln(6, 7)}},
-	// thorough only from here
 	{"closepath-only", []geomref.Cmd{cl()}},
+	// thorough only from here
 	{"single-point", []geomref.Cmd{mv(10, 20)}},
 	{"curve-controls-outside-offset", []geomref.Cmd{mv(100, 100), cv(100, 500, 300, 500, 300, 100), ln(100, 100), cl()}},
 	{"vertical-line-through-origin", []geomref.Cmd{mv(0, -20), ln(0, 30)}},
@@ -109,7 +109,7 @@ var outlines = []outline{
 	{"all-points-at-origin", []geomref.Cmd{mv(0, 0), ln(0, 0), cl()}},
 }
 
-const quickOutlines = 10
+const quickOutlines = 11
 
 func applyOutline(g *type1.Glyph, o outline) {
 	for _, c := range o.cmds {
@@ -771,7 +771,7 @@ func manyGlyphsFamily(budget time.Duration) mc.Family {
 	}
 	return mc.Family{
 		Name: "glyphlist/many-glyphs", Items: len(sizes) * len(pats) * 2 * 2 * 3, Budget: budget,
-		Rule: fmt.Sprintf("item = number of glyphs %v x encoding pattern (none; every third glyph at descending codes; every second at ascending codes; the alphabetically last five; only the middle one; all at scrambled codes) x with/without .notdef x {type1.Font, afm.Metrics} x {plain names; seven names that sort before '.notdef' ($a + -x .a .Z ! ,c) mixed in; the same with a nil encoding}; names are not in insertion order; GlyphList checked against the definition (each glyph once, .notdef first, encoded glyphs in code order, the rest alphabetically, length = NumGlyphs); non-trivial = every case", sizes),
+		Rule: fmt.Sprintf("item = number of glyphs %v x encoding pattern (none; every third glyph at descending codes; every second at ascending codes; the alphabetically last five; only the middle one; all at scrambled codes) x with/without .notdef x {type1.Font, afm.Metrics} x {plain names; eight names that sort before '.notdef' ($a + -x .a .Z ! ,c and the empty name) mixed in; the same with a nil encoding}; names are not in insertion order; GlyphList checked against the definition (each glyph once, .notdef first, encoded glyphs in code order, the rest alphabetically, length = NumGlyphs); non-trivial = every case", sizes),
 		Body: func(c *mc.Ctx, item int) mc.Verdict {
 			isAfm := item%2 == 1
 			withNotdef := (item/2)%2 == 1
@@ -785,7 +785,7 @@ func manyGlyphsFamily(budget time.Duration) mc.Family {
 			}
 			if variant >= 1 {
 				// names on both sides of ".notdef" in byte order
-				copy(names, []string{"$a", "+", "-x", ".a", ".Z", "!", ",c"})
+				copy(names, []string{"$a", "+", "-x", ".a", ".Z", "!", ",c", ""})
 			}
 			sort.Strings(names)
 			enc := make([]string, 256)
